@@ -745,6 +745,12 @@ func (b *BaseStore) Load(ctx context.Context, amount int) error {
 
 	if err != nil {
 		span.AddEvent("store-handling-head-error", trace.WithAttributes(otkv.String("error", err.Error())))
+
+		// what the other heads led to has been merged: it must be readable
+		if len(heads) > 0 {
+			_ = b.updateIndex(ctx)
+		}
+
 		return err
 	}
 
